@@ -14,14 +14,59 @@ from .report import Ctx, finish, VERIF
 PROPS = [f"C{i:02d}" for i in range(1, 21)]
 
 
+_DEFERRAL_INSTALLED = False
+_SHARED_RULES = ("strict_reads", "exits_do_not_swallow", "layout_agreement", "field_order_agreement", "windowed_traversal", "per_member_values")
+
+
+def _install_deferral() -> None:
+    """an anchor that vanished makes ONE rule undecidable, not the whole property: every rule function (rNN_M of the rule modules, the
+    shared rule pieces) is wrapped so that its AnalysisError is recorded and the remaining rules still run.  The run still ends as
+    analysis-broken (exit 2) - unless other rules found violations, which are then reported (exit 1) next to the ANALYSIS-ERROR lines."""
+    global _DEFERRAL_INSTALLED
+    if _DEFERRAL_INSTALLED:
+        return
+    _DEFERRAL_INSTALLED = True
+    import re
+    import functools
+
+    def defer(fn):
+        @functools.wraps(fn)
+        def w(ctx, *a, **k):
+            try:
+                return fn(ctx, *a, **k)
+            except AnalysisError as e:
+                if not hasattr(ctx, "deferred"):
+                    raise
+                ctx.deferred.append(str(e))
+                return None
+        return w
+    mods = [importlib.import_module(f"sa.rules.{p.lower()}") for p in PROPS if os.path.exists(os.path.join(VERIF, "sa", "rules", f"{p.lower()}.py"))]
+    for m in mods:
+        for name, fn in list(vars(m).items()):
+            if callable(fn) and re.fullmatch(r"r\d+_\d+[a-z]?", name) and getattr(fn, "__module__", "") == m.__name__:
+                setattr(m, name, defer(fn))
+    sh = importlib.import_module("sa.rules.shared")
+    for name in _SHARED_RULES:
+        if hasattr(sh, name):
+            setattr(sh, name, defer(getattr(sh, name)))
+
+
 def run_property(prop: str, tier: str, repo: str, overrides=None, quiet=False, write_evidence=True):
+    _install_deferral()
     mod = importlib.import_module(f"sa.rules.{prop.lower()}")
     ctx = Ctx(prop, tier, repo, overrides, quiet=quiet)
+    ctx.deferred = []
     mod.run(ctx)
     if tier == "thorough" and overrides is None:
         from . import thorough
         thorough.extend(ctx, mod)
-    rc = finish(ctx, mod.EXPLANATION, mod.TRUSTED, write_evidence=write_evidence)
+    rc = finish(ctx, mod.EXPLANATION, mod.TRUSTED, write_evidence=write_evidence and not ctx.deferred)
+    if ctx.deferred:
+        if rc == 0:
+            raise AnalysisError("; ".join(ctx.deferred))
+        if not quiet:
+            for e in ctx.deferred:
+                print(f"ANALYSIS-ERROR property={prop} {e}")
     return rc, ctx
 
 
